@@ -245,11 +245,16 @@ pub struct ScriptReader<'a> {
     pub alt_eintr: bool,
     pub hard_fail: bool,
     pub npoints_nonempty: usize,
+    /// from this choice point on every `read` answers `WouldBlock` (a non-blocking source that
+    /// never becomes ready, a socket whose timeout expires): a hard failure, not something to
+    /// retry for ever. `spun` counts the calls made after the first such answer.
+    pub would_block_from: Option<usize>,
+    pub spun: usize,
 }
 
 impl<'a> ScriptReader<'a> {
     pub fn new(data: &'a [u8], script: Script) -> Self {
-        ScriptReader { data, pos: 0, script, point: 0, chunk: 0, alt_eintr: false, hard_fail: false, npoints_nonempty: 0 }
+        ScriptReader { data, pos: 0, script, point: 0, chunk: 0, alt_eintr: false, hard_fail: false, npoints_nonempty: 0, would_block_from: None, spun: 0 }
     }
 }
 
@@ -260,6 +265,15 @@ impl std::io::Read for ScriptReader<'_> {
         let avail = self.data.len() - self.pos;
         let want = buf.len().min(avail);
         if !buf.is_empty() { self.npoints_nonempty += 1; }
+        if let Some(w) = self.would_block_from {
+            if p >= w {
+                self.hard_fail = true;
+                self.spun += 1;
+                // give up after many retries so that a subject spinning on it does not hang the checker
+                if self.spun > 20_000 { return Err(std::io::Error::new(std::io::ErrorKind::Other, "gave up")); }
+                return Err(std::io::Error::new(std::io::ErrorKind::WouldBlock, "scripted EWOULDBLOCK"));
+            }
+        }
         let ans = match self.script.get(p) { None => RAns::Fill, Some(i) => R_ALTS[i as usize] };
         if self.alt_eintr && p % 2 == 1 {
             return Err(std::io::Error::new(std::io::ErrorKind::Interrupted, "scripted EINTR"));
